@@ -26,6 +26,10 @@ CHECKS["C07"] = dict(cat="proof", design="§3 C07",
 CHECKS["C08"] = dict(cat="proof", design="§3 C08",
     text="SE23Quat.exp_mixed with the strapdown wiring is executed on symbols; every component of x1 (p, v, q and R(q)) is proved equal to the closed-form flow of p'=v, v'=Ra-g e3, R'=R[w]x for |w|dt in (0,2pi), all axes, all x0 (unit q0 of either sign and arbitrary q0), a, g, dt>0; w=0 and dt=0 exactly; quaternion norm preserved; two-step semigroup law Phi(dt2)oPhi(dt1)=Phi(dt1+dt2) (inductive step for every step sequence); the shipped function strapdown_ins_propagate is proved identical to that group-method step on all branch cells.",
     note="trusted: as C02 plus the closed form of the flow (Gamma_1, Gamma_2). Real arithmetic. The series-coefficient stubs cannot be applied inside a pre-built ca.Function, so the generated function is tied to the analysed expression by an all-cells equality harness.")
+CHECKS["C13"] = dict(cat="proof", design="§3 C13",
+    text="control_allocation's instruction list is encoded with if-then-else over the reals; for all demands and all positive parameters: 0 <= Fp <= F_max, omega defined and non-negative, M_sat/F_thrust/F_moment are the range-limited demands through the mixer, jointly feasible demands are reproduced exactly, and when the moment's motor-force spread fits in F_max the output is F_moment plus the least collective shift. One z3 query per claim; models replayed exactly with rational arithmetic on the real instruction list.",
+    note="trusted: CasADi SX/instruction API, ite encoder (validated per run), z3. Real arithmetic; parameters > 0.",
+    tech="solver-based checking of the real code: CasADi instruction list -> SMT with ite (z3 NRA), exact rational replay of models")
 CHECKS["C04"] = dict(cat="proof", design="§3 C04",
     text="Ad/ad/bracket of every group/algebra executed symbolically; (Ad_X y)^ = M(X) y^ M(X^-1), Ad homomorphism and inverse, ad = bracket = matrix commutator, antisymmetry, Jacobi, block-diagonal direct-sum ad, and Ad_exp(x) = expm(ad_x) in closed form (Rodrigues / Barfoot quartic) are proved per entry; wrong shapes and crashes of offered operations are violations.",
     note="trusted: as C01 plus the closed forms of expm(ad) and the theorem Ad_{exp A} = expm(ad_A) (used for SE_2(3)/Euler where exp ends in from_Matrix). Operations raising NotImplementedError are out of scope as the property states.")
